@@ -55,6 +55,33 @@ impl MessageBody for Tok {
     }
 }
 
+/// zero-sized message body with an observable destructor (a Box of it owns no allocation)
+#[derive(Debug)]
+struct Zt;
+impl Zt {
+    fn new() -> Self {
+        LIVE[BODY].fetch_add(1, SeqCst);
+        Zt
+    }
+}
+impl Clone for Zt {
+    fn clone(&self) -> Self {
+        Zt::new()
+    }
+}
+impl Drop for Zt {
+    fn drop(&mut self) {
+        if LIVE[BODY].fetch_sub(1, SeqCst) <= 0 {
+            DOUBLE.fetch_add(1, SeqCst);
+        }
+    }
+}
+impl MessageBody for Zt {
+    fn byte_len(&self) -> usize {
+        100
+    }
+}
+
 struct Pel(#[allow(dead_code)] Tok);
 impl ProcessingElement for Pel {}
 
@@ -85,7 +112,11 @@ struct Tx {
 impl Module for Tx {
     fn at_sim_start(&mut self, _: usize) {
         for i in 0..self.cfg.burst {
-            send(Message::default().id(i as u16).with_content(Tok::new(BODY)), "out");
+            if i % 2 == 1 {
+                send(Message::default().id(i as u16).with_content(Zt::new()), "out");
+            } else {
+                send(Message::default().id(i as u16).with_content(Tok::new(BODY)), "out");
+            }
         }
         schedule_in(Message::default().kind(5).with_content(Tok::new(BODY)), Duration::from_secs(3));
         if self.cfg.tasks {
@@ -109,7 +140,7 @@ impl Module for Tx {
     fn at_sim_end(&mut self) -> Result<(), RuntimeError> {
         if self.cfg.send_at_end {
             send(Message::default().kind(11).with_content(Tok::new(BODY)), "out");
-            schedule_in(Message::default().kind(12).with_content(Tok::new(BODY)), Duration::from_secs(1));
+            schedule_in(Message::default().kind(12).with_content(Zt::new()), Duration::from_secs(1));
         }
         Ok(())
     }
@@ -142,7 +173,7 @@ impl Module for Rx {
     }
     fn handle_message(&mut self, m: Message) {
         if m.header().id == 1 {
-            send(Message::default().kind(7).with_content(Tok::new(BODY)), "back");
+            send(Message::default().kind(7).with_content(Zt::new()), "back");
         }
         assert!(!(self.cfg.panic && m.header().id == 2), "rx gives up");
         if let Some(tx) = &self.tx {
@@ -412,7 +443,7 @@ impl Property for C20 {
         format!(
             "generated simulations: queue policy {{Drop, Queue(None), Queue(200 B)}} x tasks (timer-blocked, far-future, receive loop holding messages) on/off x shut-down-and-restarted transit module on/off x panicking receiver on/off x burst {:?} x processing elements on/off x messages emitted from at_sim_end on/off x a closed gate ring with probed channels on/off, \
              on a fixed topology with a parent/child pair and a ring of three busy channels through a transit gate; stopping points: builder dropped, built not started, started and stepped k events for k in 0..={}, max_itr(k) for every k up to the total + 1 in both drop orders (app first / profiler with remaining events first), max_time in {{0, 0.5, .., 4, 10, 60}} s (thorough: every 0.1 s up to 6 s); \
-             oracle: per-kind live-object counters (module states, task captures, message bodies, processing elements, channel probes) all zero and no double drop after the last handle is gone; then a reference simulation must reproduce the trace it gave before anything else ran in the process (and the same in every worker process); \
+             oracle: per-kind live-object counters (module states, task captures, message bodies of a sized and of a zero-sized type, processing elements, channel probes) all zero and no double drop after the last handle is gone; then a reference simulation must reproduce the trace it gave before anything else ran in the process (and the same in every worker process); \
              non-trivial = stopping point that leaves events, queued messages or blocked tasks behind",
             tier.pick(vec![3u32, 5], vec![1u32, 3, 5, 8]),
             tier.pick(6, 12)
